@@ -25,9 +25,9 @@ pub const ALPHAS: [f64; 4] = [0.1, 1.0, 1e-3, 10.0];
 pub const TOLS: [f64; 3] = [1e-4, 1e-3, 1e-6];
 pub const SHIFTS: [f64; 3] = [0.0, 10.0, 1e4];
 pub const L1_RATIOS: [f64; 3] = [0.5, 1.0, 0.25];
-/// a fit of the sizes used here takes well under a millisecond; one that has not returned after
-/// this long is looping (every such verdict is re-confirmed twice by the driver's replays)
-pub const WATCHDOG_MS: u64 = 1000;
+/// a fit of the sizes used here needs well under a millisecond of CPU time; one that has consumed this
+/// much without returning is looping (every such verdict is re-confirmed twice by the driver's replays)
+pub const WATCHDOG_MS: u64 = 500;
 
 /// The X alphabet (Σ4 mapped by the seed's affine map) and the y alphabet.
 fn x_alphabet(seed: u64) -> [f64; 4] {
@@ -141,8 +141,9 @@ fn run_ctarget(job: &Job, seed: u64) {
     let n = x.len();
     let enet = job.s("est") == "enet";
     let normalize = job.b("normalize");
-    let c = mc::pick(&[0.0, 1.0, -2.5, 1e4]);
-    let alpha = mc::pick(&[0.1, 10.0, 1e-3, 1.0]);
+    let k = if job.b("wide") { 4 } else { 2 };
+    let c = mc::pick(&[0.0, 1.0, -2.5, 1e4][..k]);
+    let alpha = mc::pick(&[0.1, 10.0, 1e-3, 1.0][..k]);
     let l1_ratio = if enet { Some(0.5) } else { None };
     let y = vec![c; n];
     case(&x, &y, &Cfg { alpha, l1_ratio, normalize, tol: 1e-4, shift: 0.0 }, Some(WATCHDOG_MS), true);
@@ -237,7 +238,7 @@ mod invalid {
                 mc::violation(format!("lasso.invalid:panic:{}", key), format!("{}: invalid setting ({}) panics instead of returning Err: {}", what(), key, pi.brief()));
             }
             FitOut::Hang(_) => {
-                mc::violation(format!("lasso.invalid:loops:{}", key), format!("{}: invalid setting ({}): fit has not returned after {} ms (a rejected setting returns in microseconds) — it loops", what(), key, WATCHDOG_MS));
+                mc::violation(format!("lasso.invalid:loops:{}", key), format!("{}: invalid setting ({}): fit has not returned after consuming {} ms of CPU time (a rejected setting returns in microseconds) — it loops", what(), key, WATCHDOG_MS));
             }
         }
         mc::describe(|| json!({"op": "Lasso::fit with invalid settings", "X": x, "y": y, "alpha": alpha, "tol": tol, "max_iter": max_iter, "normalize": normalize, "invalid": bad}));
@@ -327,7 +328,7 @@ impl Harness for C08 {
         for est in ["lasso", "enet"] {
             for design in 0..(if t { 4 } else { 2 }) {
                 for normalize in [true, false] {
-                    jobs.push(Job::new(format!("ctarget-{}-design{}-{}", est, design, if normalize { "norm" } else { "raw" }), json!({"kind": "ctarget", "est": est, "design": design, "normalize": normalize})));
+                    jobs.push(Job::new(format!("ctarget-{}-design{}-{}", est, design, if normalize { "norm" } else { "raw" }), json!({"kind": "ctarget", "est": est, "design": design, "normalize": normalize, "wide": t})));
                 }
             }
         }
@@ -354,7 +355,7 @@ impl Harness for C08 {
                 ("invalid_settings_rejected", 5_000),
                 ("invalid_single_setting_rejected", 100),
                 ("invalid_constant_column_rejected", 10),
-                ("constant_target_cases", 50),
+                ("constant_target_cases", 32),
             ],
             bounds: json!({
                 "lattice_lasso": if t {
@@ -365,7 +366,7 @@ impl Harness for C08 {
                 "lattice_elastic_net": "same X; every zero-sum y (first n-1 entries over {0,1,-2,3}, last = -sum; exact mean 0); alpha x normalize x l1_ratio {0.5,1,0.25} x tol; plus (watched) free targets and shifts for the known target-mean defect",
                 "structured": format!("4 design families (Chebyshev, nested steps, integer residues, correlated ramps) x p=1..6 x n in {} x 3 column-scale patterns (1 / graded 1e-1..1e2 / alternating 1e2,1e-1) x 2 column offsets x 3 signal patterns x alpha {{0.1,1,1e-3, oracle-chosen all-zero alpha}} x normalize x tol x shift; designs with 2-norm condition number > 1e4 are outside the quantifier (fitted, only termination/no-panic judged)", if t { "p+1..=60 (every n)" } else { "{p+1,p+2,12,31,60}" }),
                 "invalid_settings": "alpha {0.1,-1,-1e-3,-1e300} x tol {1e-4,0,-1e-4,-0} x max_iter {1000,0} x shapes (n>p, n=p, n<p) x len(y)-n {0,-1,1,2} x constant column {none, 8 values in every column position} x normalize: every combination with at least one invalid setting must return Err",
-                "constant_targets": "2 (quick) / 4 (thorough) designs x y = c*1 for c in {0,1,-2.5,1e4} x alpha {0.1,10,1e-3,1} x normalize x {Lasso, ElasticNet(0.5)} under a 1000 ms watchdog",
+                "constant_targets": "quick: 2 designs x y = c*1 for c in {0,1} x alpha {0.1,10}; thorough: 4 designs x c in {0,1,-2.5,1e4} x alpha {0.1,10,1e-3,1}; x normalize x {Lasso, ElasticNet(0.5)}, under a 500 ms CPU-time watchdog",
                 "slack": "objective(fit) <= min*(1+4 tol) + 1e-9 ||y-mean||^2 + 64 eps ||y||^2",
             }),
         }
@@ -397,40 +398,41 @@ impl Harness for C08 {
 
 fn probe() {
     use cases::FitOut;
-    let mut total = 0;
-    let mut bad = 0;
-    for fam in 0..4 {
-        for p in 1..=4usize {
-            for n in [p + 1, 12] {
-                for scale in 0..3 {
-                    for offset in 0..2 {
+    let xa = x_alphabet(0);
+    let ya = y_alphabet(0);
+    let mut slow = 0;
+    for x0 in 0..4 {
+        for x1 in 0..4 {
+            if x0 == x1 {
+                continue;
+            }
+            for y0 in 0..4 {
+                for y1 in 0..4 {
+                    for &alpha in &ALPHAS {
                         for normalize in [true, false] {
-                            for alpha in [1e-3, 0.1, 1.0] {
-                                for ys in [1.0, 1e2, 1e4] {
-                                    let (x, y) = families::build(fam, n, p, scale, offset, 0, 0);
-                                    let y: Vec<f64> = y.iter().map(|v| v * ys).collect();
-                                    let cfg = Cfg { alpha, l1_ratio: None, normalize, tol: 1e-4, shift: 0.0 };
-                                    let des = refs::design(&x, normalize);
-                                    let cond = refs::cond(&des.z);
-                                    if cond > 1e4 {
-                                        continue;
-                                    }
-                                    total += 1;
-                                    let r = match cases::fit_watched(&x, &y, &cfg, 1000, &x, 1000) {
-                                        FitOut::Ok(f) => {
-                                            if f.w.iter().all(|v| v.is_finite()) {
-                                                continue;
-                                            }
-                                            format!("Ok NONFINITE w={:?} b={}", f.w, f.b)
+                            for &l1r in &L1_RATIOS {
+                                for i in 0..3 {
+                                    for base in [false, true] {
+                                        let shift = if base { 0.0 } else { SHIFTS[i] };
+                                        let x: Mat = vec![vec![xa[x0]], vec![xa[x1]]];
+                                        let y = vec![ya[y0] + shift, ya[y1] + shift];
+                                        if y[0] == y[1] {
+                                            continue;
                                         }
-                                        FitOut::Err(e) => format!("Err {}", e),
-                                        FitOut::Panic(p) => format!("PANIC {}", p.brief()),
-                                        FitOut::Hang(_) => "HANG".to_string(),
-                                    };
-                                    bad += 1;
-                                    println!("fam={} p={} n={} scale={} offset={} normalize={} alpha={} yscale={} cond={:.1} -> {}", fam, p, n, scale, offset, normalize, alpha, ys, cond, r);
-                                    if bad > 40 {
-                                        std::process::exit(0);
+                                        let cfg = Cfg { alpha, l1_ratio: Some(l1r), normalize, tol: TOLS[i], shift };
+                                        let t0 = std::time::Instant::now();
+                                        let r = cases::fit_watched(&x, &y, &cfg, 1000, &x, 20000);
+                                        let dt = t0.elapsed().as_millis();
+                                        if dt > 50 {
+                                            slow += 1;
+                                            let s = match r {
+                                                FitOut::Ok(f) => format!("Ok w={:?} b={}", f.w, f.b),
+                                                FitOut::Err(e) => format!("Err {}", e),
+                                                FitOut::Panic(p) => format!("PANIC {}", p.brief()),
+                                                FitOut::Hang(_) => "HANG".to_string(),
+                                            };
+                                            println!("{} ms: x={:?} y={:?} alpha={} l1r={} normalize={} tol={} -> {}", dt, x, y, alpha, l1r, normalize, TOLS[i], s);
+                                        }
                                     }
                                 }
                             }
@@ -440,7 +442,7 @@ fn probe() {
             }
         }
     }
-    println!("total {} bad {}", total, bad);
+    println!("slow {}", slow);
     std::process::exit(0);
 }
 
